@@ -138,7 +138,7 @@ Section LiftTable.
   Notation S m := (fst (sd ke A m)).
   Notation D m := (snd (sd ke A m)).
 
-  Lemma sd_andv x y : sd ke A (MAndV x y) = (cross (S x) (S y), []).
+  Lemma sd_andv x y : sd ke A (MAndV x y) = (cross (S x) (S y), cross (S x) (D y)).
   Proof. cbn [sd]. destruct (sd ke A x), (sd ke A y); reflexivity. Qed.
   Lemma sd_andb x y : sd ke A (MAndB x y) = (cross (S x) (S y), cross (D x) (D y)).
   Proof. cbn [sd]. destruct (sd ke A x), (sd ke A y); reflexivity. Qed.
